@@ -12,12 +12,15 @@ template <class Real> struct Cloud {
     std::array<Real*, 4> out() { return {rhs[0].data(), rhs[1].data(), rhs[2].data(), rhs[3].data()}; }
 };
 
-template <class Real> Cloud<Real> makeCloud(vh::Rng& r, long n, double scale, double offset, int sign, bool initRhs) {
+// neutralFrac: fraction of particles with charge exactly 0 (neutral probes: they still receive a potential and exert none);
+// qScale: common magnitude of the charges
+template <class Real> Cloud<Real> makeCloud(vh::Rng& r, long n, double scale, double offset, int sign, bool initRhs, double neutralFrac = 0, double qScale = 1) {
     Cloud<Real> c; c.n = n;
     for (auto& a : c.v) a.resize(size_t(n) + 1); for (auto& a : c.rhs) a.resize(size_t(n) + 1);
     for (long i = 0; i < n; ++i) {
         for (int d = 0; d < 3; ++d) c.v[d][i] = Real(offset + scale * (r.unit() - 0.5));
-        c.v[3][i] = Real((sign == 0 ? 1.0 : sign == 1 ? -1.0 : (r.coin() ? 1.0 : -1.0)) * (0.1 + r.unit()));
+        c.v[3][i] = Real((sign == 0 ? 1.0 : sign == 1 ? -1.0 : (r.coin() ? 1.0 : -1.0)) * (0.1 + r.unit()) * qScale);
+        if (neutralFrac > 0 && r.coin(neutralFrac)) c.v[3][i] = Real(0);
         for (int k = 0; k < 4; ++k) c.rhs[k][i] = initRhs ? Real(10.0 * (r.unit() - 0.5)) : Real(0);
     }
     return c;
@@ -74,10 +77,17 @@ template <class Real> void runCase(long kk, uint64_t seed, Result& res) {
     const double offset = r.coin(0.5) ? 0.0 : scale * double(r.range(-3, 3));
     const int sign = int(r.below(3));
     const bool init = r.coin(0.6);
-    const std::string ctx = std::string(realName<Real>()) + " ns=" + vh::str(ns) + " nt=" + vh::str(nt) + " scale=1e" + vh::str(std::log10(scale)) + " sign=" + vh::str(sign) + " initialRhs=" + vh::str(init);
+    // neutral particles (charge exactly 0) in a third of the cases: 20% of the particles, or everything but one, or the first / last one only
+    const int neutralKind = r.coin(0.34) ? 1 + int(r.below(4)) : 0;
+    const double neutralFrac = neutralKind == 1 ? 0.2 : neutralKind == 2 ? 0.9 : 0.0;
+    const double qScale = r.coin(0.25) ? std::pow(10.0, double(r.range(-2, 2))) : 1.0;
+    const std::string ctx = std::string(realName<Real>()) + " ns=" + vh::str(ns) + " nt=" + vh::str(nt) + " scale=1e" + vh::str(std::log10(scale)) + " sign=" + vh::str(sign) + " initialRhs=" + vh::str(init) + " neutral=" + vh::str(neutralKind) + " qScale=" + vh::str(qScale);
     res.desc = ctx;
-    auto S = makeCloud<Real>(r, ns, scale, offset, sign, init);
-    auto T = makeCloud<Real>(r, nt, scale, offset + (r.coin(0.5) ? 0.0 : scale * 1.5), sign, init);
+    auto S = makeCloud<Real>(r, ns, scale, offset, sign, init, neutralFrac, qScale);
+    auto T = makeCloud<Real>(r, nt, scale, offset + (r.coin(0.5) ? 0.0 : scale * 1.5), sign, init, neutralFrac, r.coin(0.5) ? qScale : 1.0);
+    if (neutralKind == 3) { if (ns) S.v[3][0] = Real(0); if (nt) T.v[3][0] = Real(0); }
+    if (neutralKind == 4) { if (ns) S.v[3][size_t(ns) - 1] = Real(0); if (nt) T.v[3][size_t(nt) - 1] = Real(0); }
+    if (neutralKind) res.ev("p2p-cases-with-neutral-particles");
     if (tooClose(S, T, false) || tooClose(T, T, true) || tooClose(S, S, true)) { res.skipped = true; res.skipReason = "coincident points (1/r undefined)"; return; }
     std::array<std::vector<LD>, 4> incT, sabT, incS, sabS, incI, sabI;
     refRemote(S, T, false, incT, sabT); refRemote(T, S, false, incS, sabS); refRemote(T, T, true, incI, sabI);
